@@ -595,6 +595,20 @@ impl Transaction {
         self.transaction_type == TransactionType::Issuance
     }
 
+    /// Fee, ATR and Issuance transactions are produced by the block that carries them, and SPV
+    /// transactions stand in for pruned ones in lite blocks. validate() asks none of them for a
+    /// sender, a signature or funded outputs because block.validate() compares them with what the
+    /// block must contain. They never travel on their own.
+    pub fn is_only_valid_inside_block(&self) -> bool {
+        matches!(
+            self.transaction_type,
+            TransactionType::Fee
+                | TransactionType::ATR
+                | TransactionType::Issuance
+                | TransactionType::SPV
+        )
+    }
+
     // generates
     //
     // when the block is created, block.generate() is called to fill in all the
